@@ -81,8 +81,12 @@ class C15(Prop):
                 docs = [[op.get("text") for op in t["ops"]] for t in spec["tasks"]]
                 nt.add(h48(["il", docs, out["schedule"]]))
             acc["schedules"].add(h48(out["schedule"]))
+            states = acc["extra"].setdefault("parser_states_in_flight", [])
             for j in st["joint"]:
                 acc["joint"].add(h48(j))
+                for obs in j:
+                    if obs and obs[0] not in states:
+                        states.append(obs[0])
         else:
             task = spec["tasks"][0]
             prev = {}
@@ -110,6 +114,7 @@ class C15(Prop):
             "sweep_all_two_task_interleavings_done": runs.get("sweep", 0), "sweep_total": scen_c15.n_sweep() if runs.get("sweep") else None,
             "sweep_documents": [d[0] for d in scen_c15.SWEEP_DOCS],
             "schedules_distinct": len(merged["schedules"]), "joint_states_distinct": len(merged["joint"]),
+            "parser_states_total": _parser_states_total(),
             "dirty_probe_hits": merged["dirty"],
         }
         rule = ("evaluations = operations whose result was compared with the same operation on fresh instances run alone. "
@@ -120,6 +125,14 @@ class C15(Prop):
                 "(thorough: and triples) of the committed pool x instance configurations x error-mode combinations; sampled part: seeded histories "
                 "and interleavings over pool, acceptance corpus and generated/damaged documents.")
         return cov, rule
+
+
+def _parser_states_total():
+    try:
+        import gherkin.parser as gp
+        return sum(1 for k in vars(gp.Parser) if k.startswith("match_token_at_"))
+    except Exception:  # noqa: BLE001
+        return None
 
 
 PROPS = {"C15": C15()}
@@ -155,7 +168,7 @@ def reference_table(include_corpus=True):
         tab[name] = row
         if name == "00-minimal":
             r = al.parse(text, {"c": "tm", "d": "en"}, "ast", False, "text")
-            if r["kind"] != "doc" or c["kind"] != "pickles" or r["toks"] != 5 or r["reads"] != 5 or len(r["draws"]) != 2:
+            if r["kind"] != "doc" or c["kind"] != "pickles" or r["toks"] < 4 or r["reads"] < 4 or not r["draws"]:
                 raise Harness("sanity: the reference parse of the minimal pool document is %s/%s (toks %s, reads %s, draws %s): %s" % (
                     r["kind"], c["kind"], r["toks"], r["reads"], len(r["draws"]), engine.excerpt(r["norm"])))
     return tab
